@@ -1,11 +1,21 @@
 import Mamba.Proto
 import Mamba.Drv.C18
+import Mamba.Drv.C13
+import Mamba.Drv.C20
+import Mamba.Drv.C05
+import Mamba.Drv.C19
 
 namespace Drv
 
 def dispatch (line : String) : String :=
   match Proto.words line with
   | "ds" :: args => C18.handle args
+  | "dsearch" :: args => C13.handle args
+  | "tsp" :: args => C20.handleExact args
+  | "tspc" :: args => C20.handleCalls args
+  | "tspf" :: args => C20.handleFault args
+  | "c05" :: args => C05.handle args
+  | "c19" :: args => C19.handle args
   | _ => "bad-op"
 
 end Drv
